@@ -303,8 +303,10 @@ def check_profiles(ctx, templates: List[Template]) -> None:
             continue
         var = lp.target.id
         tr = Translator(atom_of=lambda n_: {L: 'L', C: 'C', TSPY: 'tspy'}.get(norm(n_)))
+        # a local bound exactly once to a plain attribute path (`construction_years = model.surfaceplant.construction_years.value`) is that path
+        from gxstat.inline import inline_sequential as _inl4
         try:
-            args = [tr.tr(a) for a in lp.iter.args]
+            args = [tr.tr(_inl4(a, lp, cross_loops=True) if any(isinstance(x, ast.Name) for x in ast.walk(a)) else a) for a in lp.iter.args]
         except Unsupported:
             continue
         start, stop = (Rat.const(0), args[0]) if len(args) == 1 else (args[0], args[1])
